@@ -78,6 +78,8 @@ func (s *SwitchPool) GetOne(ctx context.Context, client client.VPC, zone string,
 
 	switch selectOptions.VSwitchSelectPolicy {
 	case VSwitchSelectionPolicyRandom:
+		// shuffle a copy, the list belongs to the caller
+		ids = append([]string(nil), ids...)
 		rand.Shuffle(len(ids), func(i, j int) { ids[i], ids[j] = ids[j], ids[i] })
 	case VSwitchSelectionPolicyMost:
 		// lookup all vsw in cache and get one matched
